@@ -6,7 +6,7 @@ From Coq Require Import ZArith NArith List Bool Lia ZifyBool ZifyNat ZifyN.
 From NV Require Import Base.Percent Text.TextBase Text.TextBaseProofs Vcf.Values Vcf.Line.
 From NV Require Import Bcf.Ints Bcf.IntsProofs Bcf.Typed Bcf.TypedProofs Bcf.VectorsProofs
   Bcf.Strings Bcf.StringsProofs Bcf.StringMap Bcf.StringMapProofs Bcf.Record Bcf.RecordProofs
-  Bcf.Genotype Bcf.GenotypeProofs Bcf.BlockProofs Bcf.RecordTyped Bcf.Bridge.
+  Bcf.Genotype Bcf.GenotypeProofs Bcf.BlockProofs Bcf.RecordTyped Bcf.StringsExact Bcf.Bridge.
 Import ListNotations.
 Open Scope Z_scope.
 
@@ -35,15 +35,30 @@ Proof.
   apply N.eqb_neq in E1. apply N.eqb_neq in E2. apply N.eqb_neq in E3. repeat split; assumption.
 Qed.
 
-Lemma elt_plain : forall t, elt_special t = false -> plain_elem t.
+Lemma elt_f : forall t, elt_special t = false -> elem_f t.
 Proof.
-  intros t H. unfold elt_special in H. unfold plain_elem.
-  destruct t as [|b t']; [discriminate|]. cbn [orb] in H.
-  destruct (bytes_eqb (b :: t') [Strings.dot]) eqn:E1; [discriminate|]. cbn [orb] in H.
-  destruct (existsb (N.eqb comma) (b :: t')) eqn:E2; [discriminate|]. cbn [orb] in H.
-  split; [discriminate|]. split.
+  intros t H. unfold elt_special, has_byte in H. unfold elem_f.
+  destruct (bytes_eqb t [Strings.dot]) eqn:E1; [discriminate|]. cbn [orb] in H.
+  destruct (existsb (N.eqb comma) t) eqn:E2; [discriminate|]. cbn [orb] in H.
+  split.
   - intro X. rewrite X in E1. rewrite bytes_eqb_refl in E1. discriminate.
   - split; apply existsb_false_in; assumption.
+Qed.
+
+Lemma chr_i : forall c, chr_special_i c = false -> char_i c.
+Proof.
+  intros c H. unfold chr_special_i in H. unfold char_i.
+  destruct (N.eqb c Strings.dot) eqn:E1; [discriminate|]. destruct (N.eqb c comma) eqn:E2; [discriminate|].
+  apply N.eqb_neq in E1. apply N.eqb_neq in E2. split; assumption.
+Qed.
+
+Lemma elt_i : forall t, elt_special_i t = false -> elem_i t.
+Proof.
+  intros t H. unfold elt_special_i, has_byte in H. unfold elem_i.
+  destruct (bytes_eqb t [Strings.dot]) eqn:E1; [discriminate|]. cbn [orb] in H.
+  split.
+  - intro X. rewrite X in E1. rewrite bytes_eqb_refl in E1. discriminate.
+  - apply existsb_false_in; assumption.
 Qed.
 
 (* ---------------------------------------------------------------- INFO values *)
@@ -142,14 +157,16 @@ Proof.
     rewrite X. cbn [rbind value_of_ival]. split; [reflexivity|]. now rewrite map_on_oz.
   - (* Character vector *)
     destruct Hok as (Hne & Hu & Hl). cbn [info_special] in Hsp.
-    assert (chars_ok l) as Hc by (intros c Hc; apply chr_plain; exact (any_some_false _ _ _ _ Hsp Hc)).
-    destruct (info_chars_roundtrip l Hne Hc Hu Hl) as (bs & E & D).
+    assert (chars_i l) as Hc by (intros c Hc; apply chr_i; exact (any_some_false _ _ _ _ Hsp Hc)).
+    destruct (info_chars_roundtrip_x l Hne Hc Hu Hl) as (bs & E & D).
     exists bs, (IS (SChars l)). split; [exact E|]. split; [exact (sd_string _ _ E)|].
     cbn [dec_info_kind]. rewrite D. split; reflexivity.
   - (* String vector *)
     destruct Hok as (Hne & Hu & Hl). cbn [info_special] in Hsp.
-    assert (strs_ok l) as Hc by (intros t Ht; apply elt_plain; exact (any_some_false _ _ _ _ Hsp Ht)).
-    destruct (info_strs_roundtrip l Hne Hc Hu Hl) as (bs & E & D).
+    apply orb_false_iff in Hsp. destruct Hsp as [Hs1 Hsp].
+    assert (l <> [Some []]) as Hn1 by (intro X; subst l; discriminate Hs1).
+    assert (strs_i l) as Hc by (intros t Ht; apply elt_i; exact (any_some_false _ _ _ _ Hsp Ht)).
+    destruct (info_strs_roundtrip_x l Hne Hn1 Hc Hu Hl) as (bs & E & D).
     exists bs, (IS (SStrs l)). split; [exact E|]. split; [exact (sd_string _ _ E)|].
     cbn [dec_info_kind]. rewrite D. split; reflexivity.
 Qed.
@@ -261,7 +278,10 @@ Proof.
   destruct (info_fields_rt h (r_info r) Hinfo) as (blocks & ivs & Ek & El & Hsd & Hd & Hb).
   assert (length blocks = length (r_info r)) as Hlen
     by (rewrite <- (map_length fst blocks), Ek, map_length; reflexivity).
-  unfold bcf_write, fmt_fields, has_rows. rewrite Hk, Hr. cbn [indexed map].
+  unfold bcf_write, enc_record_w, fmt_fields, has_rows. rewrite Hk, Hr. cbn [indexed map].
+  assert ((if fix11_nfmt_zero_without_rows && negb false then @nil field else []) = []) as Hsw
+    by (destruct fix11_nfmt_zero_without_rows; reflexivity).
+  rewrite Hsw. clear Hsw.
   assert (info_fields r = map lift blocks) as El' by (unfold info_fields; exact El).
   rewrite El'. rewrite El' in Hsb.
   rewrite Hk in Hsite. cbn [length] in Hsite. rewrite <- Hlen in Hsite.
@@ -355,4 +375,93 @@ Proof.
   destruct (bcf_sites_roundtrip strings contigs h rlen r rest Ws Wc Hso Hb Hsb) as (bs & Ew & Er).
   exists bs, (canon h r), r. repeat split; try assumption.
   apply content_canon_sites. destruct Hso as (_ & _ & Hr). exact Hr.
+Qed.
+
+(* ---------------------------------------------------------------- a reused RecordBuf *)
+Lemma has_key_in : forall k l, has_key k l = false -> ~ In k (map fst l).
+Proof.
+  intros k. induction l as [|[k' v] l IH]; intros H; cbn [has_key map fst In] in *; [tauto|].
+  apply orb_false_iff in H. destruct H as [H1 H2]. apply name_eqb_neq in H1.
+  intros [X|X]; [apply H1; now symmetry|exact (IH H2 X)].
+Qed.
+
+Lemma dec_fields_k_nodup : forall m mult n bs l r,
+  dec_fields_k m mult true n bs = Some (l, r) -> NoDup (map fst l).
+Proof.
+  intros m mult. induction n as [|n IH]; intros bs l r H; cbn [dec_fields_k] in H.
+  - inversion H. constructor.
+  - destruct (dec_index bs) as [[i r0]|]; [|discriminate].
+    destruct (get_index m (znat (length (entries m)) i)) as [k|]; [|discriminate].
+    destruct (split_typed (negb true && negb (name_eqb k key_GT)) mult r0) as [[vb r1]|]; [|discriminate].
+    destruct (dec_fields_k m mult true n r1) as [[l' r2]|] eqn:E; [|discriminate].
+    cbn [andb] in H. destruct (has_key k l') eqn:Hk; [discriminate|].
+    inversion H; subst. cbn [map fst]. constructor; [exact (has_key_in _ _ Hk)|exact (IH _ _ _ E)].
+Qed.
+
+Lemma map_rres_fst : forall A B C (f : A * B -> rres (A * C)) l out,
+  (forall x y, f x = ROk y -> fst y = fst x) ->
+  map_rres f l = ROk out -> map fst out = map fst l.
+Proof.
+  intros A B C f. induction l as [|x l IH]; intros out Hf H; cbn [map_rres] in H.
+  - inversion H. reflexivity.
+  - destruct (f x) as [y| |] eqn:E; cbn [rbind] in H; try discriminate.
+    destruct (map_rres f l) as [ys| |] eqn:E2; cbn [rbind] in H; try discriminate.
+    inversion H; subst. cbn [map]. rewrite (Hf x y E), (IH ys Hf eq_refl). reflexivity.
+Qed.
+
+Lemma typed_info_nodup : forall strings contigs ik fk hs bs t,
+  dec_record_typed strings contigs ik fk hs bs = ROk t -> NoDup (map fst (t_info t)).
+Proof.
+  intros strings contigs ik fk hs bs t H. unfold dec_record_typed in H.
+  destruct (dec_record_k strings contigs hs bs) as [[[[hd infos] fmts] rest]|] eqn:E; [|discriminate].
+  unfold dec_record_k in E.
+  destruct (dec_frame bs) as [[[sb ib] rest']|]; [|discriminate].
+  destruct (dec_head strings contigs sb) as [[h' ibs]|]; [|discriminate].
+  destruct (hs <? h_n_sample h'); [discriminate|].
+  destruct (dec_fields_k strings 1 true (Z.to_nat (h_n_info h')) ibs) as [[infos' r1]|] eqn:E1; [|discriminate].
+  destruct (dec_fields_k strings (Z.to_nat (h_n_sample h')) false (Z.to_nat (h_n_fmt h')) ib) as [[fmts' r2]|]; [|discriminate].
+  inversion E; subst. apply dec_fields_k_nodup in E1.
+  match type of H with rbind (map_rres ?f infos) _ = _ => destruct (map_rres f infos) as [ivs| |] eqn:Ei end;
+    cbn [rbind] in H; try discriminate.
+  match type of H with rbind (map_rres ?f fmts) _ = _ => destruct (map_rres f fmts) as [cols| |] end;
+    cbn [rbind] in H; try discriminate.
+  inversion H; subst t. cbn [t_info].
+  assert (map fst ivs = map fst infos) as Hm.
+  2:{ rewrite Hm. exact E1. }
+  eapply map_rres_fst; [|exact Ei].
+  intros x y Hx. cbv beta in Hx. destruct (ik (fst x)) as [k|]; [|discriminate].
+  destruct (dec_info_kind k (snd x)) as [v| |]; cbn [rbind] in Hx; try discriminate.
+  inversion Hx. reflexivity.
+Qed.
+
+Lemma has_name_in : forall k m, has_name k m = false <-> ~ In k (map fst m).
+Proof.
+  intros k. induction m as [|[k' v] m IH]; cbn [has_name map fst In]; [split; [tauto|reflexivity]|].
+  rewrite orb_false_iff, IH, name_eqb_neq. split.
+  - intros [A B] [X|X]; [apply A; now symmetry|exact (B X)].
+  - intros H. split; [intro X; apply H; left; now symmetry|intro X; apply H; right; exact X].
+Qed.
+
+Lemma insert_fields_nodup : forall fs m, NoDup (map fst (m ++ fs)) -> insert_fields m fs = Some (m ++ fs).
+Proof.
+  induction fs as [|[k v] fs IH]; intros m H; cbn [insert_fields]; [now rewrite app_nil_r|].
+  assert (has_name k m = false) as Hk.
+  { apply has_name_in. intro X. rewrite map_app in H. cbn [map fst] in H.
+    apply NoDup_remove_2 in H. apply H. apply in_or_app. left. exact X. }
+  rewrite Hk. rewrite IH; [now rewrite <- app_assoc|]. rewrite <- app_assoc. exact H.
+Qed.
+
+(* read_record_buf into a RecordBuf that still holds ANY previous record returns what a fresh
+   buffer returns (results and errors alike) *)
+Theorem reused_recordbuf_independent : forall prev strings contigs h bs,
+  bcf_read_into prev strings contigs h bs = bcf_read strings contigs h bs.
+Proof.
+  intros prev strings contigs h bs. unfold bcf_read_into, bcf_read.
+  destruct (dec_record_typed strings contigs (ik_of h) (fk_of h) (Z.of_nat (h_nsamples h)) bs) as [t| |] eqn:E;
+    cbn [rbind]; try reflexivity.
+  apply typed_info_nodup in E. unfold fill_into, clear_info.
+  cbn [r_chrom r_pos r_ids r_ref r_alts r_qual r_filters r_info r_keys r_samples].
+  rewrite insert_fields_nodup.
+  - cbn [app]. destruct (vrec_of t); reflexivity.
+  - cbn [app]. unfold vrec_of. cbn [r_info]. rewrite map_map. cbn [fst]. exact E.
 Qed.
